@@ -126,11 +126,45 @@ func LoadProgram(repoDir string) (*Program, error) {
 								}
 								return true
 							})
-							if !hasLit {
+							// package-level functions of this package handed over AS VALUES (`makeCase("", wrap(titleWord))`):
+							// each stands for a literal with the function's body, numbered after the real literals, so that
+							// `lit k` clauses written for a literal still have a subject when the literal was given a name
+							var fnValues []*ast.FuncDecl
+							calleeIdents := map[*ast.Ident]bool{}
+							ast.Inspect(vs.Values[i], func(n ast.Node) bool {
+								if c, ok := n.(*ast.CallExpr); ok {
+									if id, ok := ast.Unparen(c.Fun).(*ast.Ident); ok {
+										calleeIdents[id] = true
+									}
+								}
+								return true
+							})
+							ast.Inspect(vs.Values[i], func(n ast.Node) bool {
+								if _, ok := n.(*ast.FuncLit); ok {
+									return false
+								}
+								if id, ok := n.(*ast.Ident); ok && !calleeIdents[id] {
+									if fn, ok := pkg.TypesInfo.Uses[id].(*types.Func); ok && fn.Pkg() == pkg.Types && fn.Parent() == pkg.Types.Scope() {
+										for _, f2 := range pkg.Syntax {
+											for _, d2 := range f2.Decls {
+												if fd2, ok := d2.(*ast.FuncDecl); ok && fd2.Body != nil && pkg.TypesInfo.Defs[fd2.Name] == fn {
+													fnValues = append(fnValues, fd2)
+												}
+											}
+										}
+									}
+								}
+								return true
+							})
+							if !hasLit && len(fnValues) == 0 {
 								continue
 							}
+							stmts := []ast.Stmt{&ast.ExprStmt{X: vs.Values[i]}}
+							for _, fd2 := range fnValues {
+								stmts = append(stmts, &ast.ExprStmt{X: &ast.FuncLit{Type: fd2.Type, Body: fd2.Body}})
+							}
 							decl := &ast.FuncDecl{Name: nm, Type: &ast.FuncType{Func: vs.Values[i].Pos(), Params: &ast.FieldList{}},
-								Body: &ast.BlockStmt{Lbrace: vs.Values[i].Pos() - 1, List: []ast.Stmt{&ast.ExprStmt{X: vs.Values[i]}}, Rbrace: vs.Values[i].End()}}
+								Body: &ast.BlockStmt{Lbrace: vs.Values[i].Pos() - 1, List: stmts, Rbrace: vs.Values[i].End()}}
 							fi := &FuncInfo{Key: relPkg(pkg.PkgPath) + ".var:" + nm.Name, Pkg: pkg, Decl: decl, File: f, VarInit: true}
 							p.Funcs[fi.Key] = fi
 						}
